@@ -10,6 +10,7 @@ import ipaddress
 import itertools
 import random
 import re
+import signal
 import time
 
 from . import canon as C
@@ -259,7 +260,15 @@ def boundary_ranges(rnd, n):
                     out.append((a, b))
     out = list(dict.fromkeys(out))
     rnd.shuffle(out)
-    return out[:n]
+    # always: ends far beyond the default, next to powers of ten and of two (float / fixed-width arithmetic on bounds)
+    big = []
+    # (not beyond 17 digits: the library's pattern backtracks exponentially in the number of digit positions on
+    # out-of-range numerals - 20 digits take seconds, 23 do not finish; speed is not part of the property)
+    for k in (11, 14, 15, 16, 17):
+        for e in (10 ** k - 1, 10 ** k - 2, 10 ** k, 10 ** k + 1):
+            big.append((rnd.choice([0, 5, 10, 99, 10 ** (k - 1) + 234, 10 ** (k - 2)]), e))
+    big += [(0, 2 ** 31), (1, 2 ** 32 - 1), (7, 2 ** 53), (2 ** 31 - 1, 2 ** 31), (10 ** 15 - 1, 10 ** 15 - 1)]
+    return big + out[:max(n - len(big), 0)]
 
 
 def int_candidates(a, b, rnd):
@@ -1203,6 +1212,17 @@ RUNNERS = {'defaults': run_defaults, 'big-bounds': run_big_bounds, 'prefix-affix
            'date-invalid': run_date_invalid}
 
 
+CASE_TIMEOUT = 60
+
+
+class MetaTimeout(BaseException):
+    pass
+
+
+def _alarm(signum, frame):
+    raise MetaTimeout()
+
+
 def sig_of(v):
     sym = v['symptom']
     d = v['detail'] or ''
@@ -1224,16 +1244,27 @@ def run_shard(ctx):
     samples = []
     ncases = 0
     truncated = False
+    timeouts = 0
     for case in cases(check, tier, seed, shard, nshards):
         if time.time() - t0 > budget:
             truncated = True
             break
         ncases += 1
         before = len(M.viols)
+        old_handler = signal.signal(signal.SIGALRM, _alarm)
+        signal.alarm(CASE_TIMEOUT)
         try:
             RUNNERS[case['kind']](M, case)
         except RecursionError:
             M.viols.append({'symptom': 'crash:RecursionError', 'detail': 'while running %r' % (case,)})
+        except MetaTimeout:
+            # a case that does not finish (backtracking in the library's pattern or in the model) is no verdict
+            timeouts += 1
+            del M.viols[before:]
+            continue
+        finally:
+            signal.alarm(0)
+            signal.signal(signal.SIGALRM, old_handler)
         keys.add(hashlib.blake2b(repr(sorted((k, str(v)) for k, v in case.items() if k != 'seed')).encode(), digest_size=8).hexdigest())
         if ncases % 7 == 1 and len(samples) < 5:
             samples.append({k: (v if not isinstance(v, list) else v[:6]) for k, v in case.items()})
@@ -1248,7 +1279,7 @@ def run_shard(ctx):
     return {
         'evaluations': M.n, 'cases': ncases, 'keys': sorted(keys), 'violations': viols, 'viol_counts': dict(nviol),
         'other_property_violations': {}, 'stats': {'judged': M.n, 'unspecified': M.unspec}, 'by_op': dict(M.counts), 'samples': samples,
-        'monitor_errors': [], 'timeouts': 0, 'truncated': truncated,
+        'monitor_errors': [], 'timeouts': timeouts, 'truncated': truncated,
         'extra': {'distinct_nontrivial': 0, 'distinct_judged_questions': len(M.tokens)},
     }
 
